@@ -2059,7 +2059,13 @@ private:
   // This class is a friend for unit testing
   friend class UnitTestInternalAccess;
 
+#ifdef LIBCUCKOO_VERIF_MAX_NUM_LOCKS
+  // Verification hook: lets the harness reach lock striping, lock-array growth
+  // and deferred migration in tables of a few buckets. Must be a power of two.
+  static constexpr size_type kMaxNumLocks = LIBCUCKOO_VERIF_MAX_NUM_LOCKS;
+#else
   static constexpr size_type kMaxNumLocks = 1UL << 16;
+#endif
 
   locks_t &get_current_locks() const { return all_locks_.back(); }
 
